@@ -163,4 +163,482 @@ theorem ok_content (w : WfSt) (frozen isTop : Bool) (fc : Option Cond) (anc : Li
                   rw [hg]; exact ⟨_, rfl⟩
                 · rw [if_neg h7] at h; cases h
 
+theorem ok_pragma_noinc (w w' : WfSt) (frozen isTop : Bool) (fc : Option Cond) (anc : List Group)
+    (m0 : List (String × String)) (defs : List String) (Gt : Glob) (Lt : Loc) (Gf : Glob) (Lf : Loc)
+    (incW : Path → Bool → Bool → Option Bool) (incT : Path → Glob → Except String Glob) (dir : Path)
+    (toks : List String) (rf : Glob × Loc)
+    (hni : (toks.headD "" == "#include") = false)
+    (R : Rel w frozen isTop fc anc m0 defs Gt Lt Gf Lf)
+    (hw : wfPragma incW dir frozen w toks = some w')
+    (hf : doPragma noInc [] Gf Lf toks = .ok rf) :
+    ∃ rt, doPragma incT dir Gt Lt toks = .ok rt := by
+  have I := R.i
+  have hactT : itpActive Lt = w.own := by rw [itpActive_eq, ← I.ownT]
+  have hown1 : ¬ w.phase2 = true → w.own = false := by
+    intro hp
+    cases ho : w.own with
+    | false => rfl
+    | true => exact absurd (I.ownPhase ho) hp
+  have hinOwn : (!w.fresh && w.own && w.secMol) = true → itpActive Lt = true := by
+    intro hin
+    simp only [Bool.and_eq_true] at hin
+    rw [hactT]; exact hin.1.2
+  unfold wfPragma at hw
+  unfold doPragma at hf ⊢
+  simp only at hw hf ⊢
+  by_cases c1 : (toks == ["#endif"]) = true
+  · rw [if_pos c1] at hw ⊢
+    by_cases hp : w.phase2 = true
+    · rw [if_pos hp] at hw
+      split at hw
+      · rename_i hin; rw [if_pos (hinOwn hin)]; exact ⟨_, rfl⟩
+      · cases hw
+    · rw [if_neg hp] at hw
+      split at hw
+      · rename_i hcs
+        have hTa : ¬ itpActive Lt = true := by rw [hactT, hown1 hp]; simp
+        have hTs : Lt.cond.isNone = false := by
+          rw [R.c.condT]
+          have := condOf_isSome w.cond
+          rw [hcs] at this
+          cases hcc : condOf w.cond with
+          | none => rw [hcc] at this; cases this
+          | some m => rfl
+        rw [if_neg hTa]
+        simp only [hTs, Bool.false_eq_true, if_false]
+        exact ⟨_, rfl⟩
+      · cases hw
+  · rw [if_neg c1] at hw hf ⊢
+    by_cases c2 : startsWith (toks.headD "") "#else" = true
+    · rw [if_pos c2] at hw ⊢
+      split at hw
+      · cases hw
+      · by_cases hp : w.phase2 = true
+        · rw [if_pos hp] at hw
+          split at hw
+          · rename_i hin; rw [if_pos (hinOwn hin)]; exact ⟨_, rfl⟩
+          · cases hw
+        · rw [if_neg hp] at hw
+          have hTa : ¬ itpActive Lt = true := by rw [hactT, hown1 hp]; simp
+          rw [if_neg hTa]
+          cases hcw : w.cond with
+          | none => simp [hcw] at hw
+          | some bt =>
+            obtain ⟨b, t⟩ := bt
+            have hcT := R.c.condT
+            rw [hcw] at hcT
+            cases b with
+            | false =>
+              have e : Lt.cond = some ⟨"ifndef", t⟩ := hcT
+              rw [e]
+              simp only [inverseCond, show ("ifndef" == "ifdef") = false by decide, Bool.false_eq_true, if_false,
+                show ("ifndef" == "ifndef") = true by decide, if_true]
+              exact ⟨_, rfl⟩
+            | true =>
+              have e : Lt.cond = some ⟨"ifdef", t⟩ := hcT
+              rw [e]
+              simp only [inverseCond, show ("ifdef" == "ifdef") = true by decide, if_true]
+              exact ⟨_, rfl⟩
+    · rw [if_neg c2] at hw hf ⊢
+      by_cases c3 : (startsWith (toks.headD "") "#ifdef" || startsWith (toks.headD "") "#ifndef") = true
+      · rw [if_pos c3] at hw ⊢
+        match toks, hw with
+        | [k, tag], hw =>
+          simp only at hw ⊢
+          split at hw
+          · cases hw
+          · by_cases hp : w.phase2 = true
+            · rw [if_pos hp] at hw
+              split at hw
+              · rename_i hin; rw [if_pos (hinOwn hin)]; exact ⟨_, rfl⟩
+              · cases hw
+            · rw [if_neg hp] at hw
+              split at hw
+              · rename_i hcn
+                simp only [Bool.and_eq_true, Option.isNone_iff_eq_none, Bool.not_eq_true'] at hcn
+                have hcT : Lt.cond = none := by rw [R.c.condT, hcn.1]; rfl
+                have hTa : ¬ itpActive Lt = true := by rw [hactT, hown1 hp]; simp
+                rw [if_neg hTa, hcT]
+                exact ⟨_, rfl⟩
+              · cases hw
+        | [], hw => simp at hw
+        | [_], hw => simp at hw
+        | _ :: _ :: _ :: _, hw => simp at hw
+      · rw [if_neg c3] at hw hf ⊢
+        by_cases c4 : (toks.headD "" == "#define") = true
+        · rw [if_pos c4] at hw ⊢
+          split at hw
+          · rename_i hcd
+            simp only [Bool.and_eq_true, decide_eq_true_eq] at hcd
+            have hlen := hcd.1.1.1
+            match toks, hlen with
+            | [_, tag], _ => exact ⟨_, rfl⟩
+            | _ :: tag :: v :: vals, _ => exact ⟨_, rfl⟩
+          · cases hw
+        · rw [if_neg c4] at hw hf ⊢
+          by_cases c5 : (toks.headD "" == "#error") = true
+          · rw [if_pos c5] at hw hf ⊢
+            -- the single director skipped the #error: so does the tree director
+            split at hf
+            · rename_i hoff
+              cases hfz : frozen with
+              | false =>
+                have hcF := R.c.condF
+                simp only [hfz, Bool.false_eq_true, if_false] at hcF
+                have : switchedOff Gt Lt.cond = true := by
+                  rw [← hcF, switchedOff_congr Gt Gf _ R.g.tables.defines]; exact hoff
+                rw [if_pos this]; exact ⟨_, rfl⟩
+              | true =>
+                exfalso
+                have hcF := R.c.condF
+                simp only [hfz, if_true] at hcF
+                rw [hcF.1, switchedOff_defines Gf, hcF.2.2.1] at hoff
+                cases hoff
+            · cases hf
+          · rw [if_neg c5, hni] at hw
+            simp at hw
+
+theorem flatPragma_noinc_out (inc : Path → FlatSt → Except String FlatSt) (dir : Path)
+    (c c' : Option (Bool × String)) (st st' : FlatSt) (raw : String) (toks : List String)
+    (hni : (toks.headD "" == "#include") = false)
+    (h : flatPragma inc dir c st raw toks = .ok (c', st')) : st'.out = st.out ++ [raw] := by
+  unfold flatPragma at h
+  simp only at h
+  by_cases c1 : (toks == ["#endif"]) = true
+  · rw [if_pos c1] at h; injection h with h; injection h with _ h; subst h; rfl
+  · rw [if_neg c1] at h
+    by_cases c2 : startsWith (toks.headD "") "#else" = true
+    · rw [if_pos c2] at h; injection h with h; injection h with _ h; subst h; rfl
+    · rw [if_neg c2] at h
+      by_cases c3 : (startsWith (toks.headD "") "#ifdef" || startsWith (toks.headD "") "#ifndef") = true
+      · rw [if_pos c3] at h
+        split at h <;> (injection h with h; injection h with _ h; subst h; rfl)
+      · rw [if_neg c3] at h
+        by_cases c4 : (toks.headD "" == "#define") = true
+        · rw [if_pos c4] at h
+          split at h
+          · injection h with h; injection h with _ h; subst h
+            split <;> rfl
+          · injection h with h; injection h with _ h; subst h; rfl
+        · rw [if_neg c4] at h
+          by_cases c5 : (toks.headD "" == "#error") = true
+          · rw [if_pos c5] at h; injection h with h; injection h with _ h; subst h
+            split <;> rfl
+          · rw [if_neg c5, hni] at h
+            simp only [Bool.false_eq_true, if_false] at h
+            injection h with h; injection h with _ h; subst h; rfl
+
+/-! ### the converse induction -/
+
+/-- the one class of errors the tree reports when a FILE ends while the flattened text reports it at the very
+end: the name line of a collected moleculetype is malformed -/
+def isNameErr (e : String) : Bool := e == "moleculetype-line" || e == "moleculetype-without-name"
+
+def OkOrName {α} (r : Except String α) : Prop := (∃ x, r = .ok x) ∨ (∃ e, r = .error e ∧ isNameErr e = true)
+
+theorem groupName_err (g : Group) (e : String) (h : groupName g = .error e) : isNameErr e = true := by
+  unfold groupName at h
+  simp only at h
+  split at h
+  · split at h
+    · cases h
+    · injection h with h; subst h; rfl
+  · injection h with h; subst h; rfl
+  · injection h with h; subst h; rfl
+
+theorem readGroups_okOrName (grps : List Group) (g : Glob) : OkOrName (readGroups g grps) := by
+  induction grps generalizing g with
+  | nil => exact Or.inl ⟨g, rfl⟩
+  | cons grp rest ih =>
+    unfold readGroups
+    cases hn : groupName grp with
+    | error e => exact Or.inr ⟨e, rfl, groupName_err grp e hn⟩
+    | ok nm => exact ih _
+
+def ConvFile (fs : FS) (fuel : Nat) : Prop :=
+  ∀ (path : Path) (frozen ph ph' : Bool) (fc : Option Cond) (anc : List Group) (m0 : List (String × String))
+    (fst fst' : FlatSt) (Gt Gf : Glob) (Lf : Loc) (rfin : Glob × Loc),
+    wfFile fs fuel false path frozen ph = some ph' →
+    flattenFile fs fuel path fst = .ok fst' →
+    flatRun fst.out = .ok (Gf, Lf) →
+    Rel { phase2 := ph } frozen false fc anc m0 fst.defs Gt {} Gf Lf →
+    flatRun fst'.out = .ok rfin →
+    OkOrName (readFile fs fuel path Gt)
+
+theorem conv_line (fs : FS) (fuel : Nat) (IHc : ConvFile fs fuel)
+    (w w1 : WfSt) (frozen isTop : Bool) (fc : Option Cond) (anc : List Group)
+    (m0 : List (String × String)) (Gt : Glob) (Lt : Loc) (Gf : Glob) (Lf : Loc)
+    (dir : Path) (c c1 : Option (Bool × String)) (fst fst1 : FlatSt) (raw : String) (rf1 : Glob × Loc)
+    (R : Rel w frozen isTop fc anc m0 fst.defs Gt Lt Gf Lf) (hc : w.swallow = false → c = w.cond)
+    (hflat : flatRun fst.out = .ok (Gf, Lf))
+    (hw : wfLine (fun p fr ph => wfFile fs fuel false p fr ph) dir frozen isTop w raw = some w1)
+    (hf : flatLine (flattenFile fs fuel) dir c fst raw = .ok (c1, fst1))
+    (hflat1 : flatRun fst1.out = .ok rf1) :
+    OkOrName (treeLine (readFile fs fuel) dir (Gt, Lt) raw) := by
+  unfold wfLine at hw
+  unfold treeLine
+  unfold flatLine at hf
+  cases hcl : classify raw with
+  | none => exact Or.inl ⟨_, rfl⟩
+  | some line =>
+    cases line with
+    | star => exact Or.inl ⟨_, rfl⟩
+    | badHeader => simp [hcl] at hw
+    | header name => exact Or.inl ⟨_, rfl⟩
+    | content toks =>
+      simp only [hcl] at hw hf
+      injection hf with hf; injection hf with h1 h2; subst h1 h2
+      split at hw
+      · cases hw
+      · rename_i hfr
+        have hfresh : w.fresh = false := by simpa using hfr
+        have hdo : doContent Gf Lf toks = .ok rf1 := by
+          have := flatRun_keep fst.out raw Gf Lf hflat
+          rw [hflat1] at this
+          unfold treeLine at this
+          rw [hcl] at this
+          exact this.symm
+        obtain ⟨rt, hrt⟩ := ok_content w frozen isTop fc anc m0 _ Gt Lt Gf Lf toks rf1 R hfresh hdo
+        exact Or.inl ⟨rt, hrt⟩
+    | pragma toks =>
+      simp only [hcl] at hw hf
+      simp only [step]
+      by_cases hinc : (toks.headD "" == "#include") = true
+      · -- an include: the included file is read (or has a malformed name line) by the induction hypothesis
+        obtain ⟨k1, k2, k3, k4, k5⟩ := include_consts toks hinc
+        unfold wfPragma at hw
+        unfold doPragma
+        unfold flatPragma at hf
+        simp only [k1, k2, k3, k4, k5, hinc, Bool.false_eq_true, if_false, if_true] at hw hf ⊢
+        match toks, hw, hf with
+        | _ :: p :: _, hw, hf =>
+          simp only at hw hf ⊢
+          split at hw
+          · cases hw
+          · rename_i hsw
+            have hsw' : w.swallow = false := by simpa using hsw
+            have hcc : c = w.cond := hc hsw'
+            cases hn : normPath (dir ++ splitPath (includePath p)) with
+            | none => simp [hn] at hw
+            | some full =>
+              simp only [hn] at hw hf ⊢
+              cases hwf : wfFile fs fuel false full (frozen || w.cond.isSome) w.phase2 with
+              | none => simp [hwf] at hw
+              | some ph =>
+                have hholds : holds fst.defs c = !switchedOff Gt Lt.cond := by
+                  rw [hcc, holds_eq fst.defs Gt w.cond R.g.defsOk, R.c.condT]
+                cases hoff : switchedOff Gt Lt.cond with
+                | true => simp only [if_true]; exact Or.inl ⟨_, rfl⟩
+                | false =>
+                  simp only [Bool.false_eq_true, if_false]
+                  simp only [hholds, hoff, Bool.not_false, if_true] at hf
+                  cases hff : flattenFile fs fuel full fst with
+                  | error e => simp [hff, Except.map] at hf
+                  | ok fstc =>
+                    simp only [hff, Except.map] at hf
+                    injection hf with hf; injection hf with _ hfst; subst hfst
+                    have Rstart := rel_child_start w frozen isTop fc anc m0 _ Gt Lt Gf Lf R hoff
+                    have := IHc full (frozen || w.cond.isSome) w.phase2 ph _ _ _ fst fstc Gt Gf Lf rf1 hwf hff hflat Rstart hflat1
+                    rcases this with ⟨x, hx⟩ | ⟨e, he, hne⟩
+                    · rw [hx]; exact Or.inl ⟨_, rfl⟩
+                    · rw [he]; exact Or.inr ⟨e, rfl, hne⟩
+        | [], hw, _ => simp at hw
+        | [_], hw, _ => simp at hw
+      · have hni : (toks.headD "" == "#include") = false := by simpa using hinc
+        have hout := flatPragma_noinc_out _ dir c c1 fst fst1 raw toks hni hf
+        have hdo : doPragma noInc [] Gf Lf toks = .ok rf1 := by
+          have := flatRun_keep fst.out raw Gf Lf hflat
+          rw [← hout, hflat1] at this
+          unfold treeLine at this
+          rw [hcl] at this
+          exact this.symm
+        obtain ⟨rt, hrt⟩ := ok_pragma_noinc w w1 frozen isTop fc anc m0 _ Gt Lt Gf Lf _ (readFile fs fuel) dir toks rf1 hni R hw hdo
+        exact Or.inl ⟨rt, hrt⟩
+
+theorem conv_lines (fs : FS) (fuel : Nat) (IHc : ConvFile fs fuel) (frozen isTop : Bool) (fc : Option Cond)
+    (anc : List Group) (m0 : List (String × String)) (dir : Path) :
+    ∀ (raws : List String) (w w' : WfSt) (c : Option (Bool × String)) (fst fst' : FlatSt)
+      (Gt : Glob) (Lt : Loc) (Gf : Glob) (Lf : Loc) (rfin : Glob × Loc),
+      wfLines (fun p fr ph => wfFile fs fuel false p fr ph) dir frozen isTop raws w = some w' →
+      flattenLines (flattenFile fs fuel) dir raws c fst = .ok fst' →
+      flatRun fst.out = .ok (Gf, Lf) →
+      Rel w frozen isTop fc anc m0 fst.defs Gt Lt Gf Lf → (w.swallow = false → c = w.cond) →
+      flatRun fst'.out = .ok rfin →
+      OkOrName (runLines (readFile fs fuel) dir (parseLines raws) (Gt, Lt)) := by
+  intro raws
+  induction raws with
+  | nil => intro w w' c fst fst' Gt Lt Gf Lf rfin _ _ _ _ _ _; exact Or.inl ⟨_, rfl⟩
+  | cons raw rest ih =>
+    intro w w' c fst fst' Gt Lt Gf Lf rfin hw hf hflat R hc hfin
+    simp only [wfLines] at hw
+    simp only [flattenLines] at hf
+    rw [runLines_parse_cons]
+    cases hw1 : wfLine (fun p fr ph => wfFile fs fuel false p fr ph) dir frozen isTop w raw with
+    | none => simp [hw1] at hw
+    | some w1 =>
+      simp only [hw1] at hw
+      cases hf1 : flatLine (flattenFile fs fuel) dir c fst raw with
+      | error e => simp [hf1] at hf
+      | ok r =>
+        obtain ⟨c1, fst1⟩ := r
+        simp only [hf1] at hf
+        obtain ⟨ys, hys⟩ := flattenLines_appends _ dir (flattenFile_appends fs fuel) rest c1 fst1 fst' hf
+        obtain ⟨rf1, hflat1⟩ := flatRun_prefix fst1.out ys rfin (by rw [← hys]; exact hfin)
+        have h1 := conv_line fs fuel IHc w w1 frozen isTop fc anc m0 Gt Lt Gf Lf dir c c1 fst fst1 raw rf1 R hc hflat hw1 hf1 hflat1
+        rcases h1 with ⟨st1, hst1⟩ | ⟨e, he, hne⟩
+        · obtain ⟨Gt1, Lt1⟩ := st1
+          rw [hst1]
+          simp only
+          obtain ⟨hc1, _, _, Gf1, Lf1, hfl1, R1⟩ := sim_line fs fuel (sim_file fs fuel) w w1 frozen isTop fc anc m0 Gt Lt Gf Lf Gt1 Lt1
+            dir c c1 fst fst1 raw R hc hflat hw1 hst1 hf1
+          exact ih w1 w' c1 fst1 fst' Gt1 Lt1 Gf1 Lf1 rfin hw hf hfl1 R1 hc1 hfin
+        · rw [he]; exact Or.inr ⟨e, rfl, hne⟩
+
+theorem conv_file (fs : FS) : ∀ fuel, ConvFile fs fuel := by
+  intro fuel
+  induction fuel with
+  | zero => intro path frozen ph ph' fc anc m0 fst fst' Gt Gf Lf rfin hw; simp [wfFile] at hw
+  | succ fuel IH =>
+    intro path frozen ph ph' fc anc m0 fst fst' Gt Gf Lf rfin hw hf hflat R hfin
+    unfold wfFile at hw
+    unfold flattenFile at hf
+    unfold readFile
+    cases hget : fsGet fs path with
+    | none => simp [hget] at hw
+    | some raws =>
+      simp only [hget] at hw hf ⊢
+      cases hwl : wfLines (fun p fr ph => wfFile fs fuel false p fr ph) path.dropLast frozen false raws { phase2 := ph } with
+      | none => simp [hwl] at hw
+      | some w' =>
+        simp only [hwl] at hw
+        split at hw
+        · rename_i hend
+          simp only [Bool.and_eq_true, Option.isNone_iff_eq_none, Bool.not_eq_true'] at hend
+          have hl := conv_lines fs fuel IH frozen false fc anc m0 path.dropLast raws { phase2 := ph } w' none fst fst'
+            Gt {} Gf Lf rfin hwl hf hflat R (fun _ => rfl) hfin
+          rcases hl with ⟨st1, hst1⟩ | ⟨e, he, hne⟩
+          · obtain ⟨Gt1, Lt1⟩ := st1
+            rw [hst1]
+            simp only
+            obtain ⟨_, _, Gf', Lf', _, R'⟩ := sim_lines fs fuel (sim_file fs fuel) frozen false fc anc m0 path.dropLast raws
+              { phase2 := ph } w' none fst fst' Gt {} Gt1 Lt1 Gf Lf hwl hf hst1 hflat R (fun _ => rfl)
+            -- finalize of a file without [molecules] lines: only the name lines can fail
+            unfold finalize
+            rw [finalize_groups Lt1 R'.i.itpT]
+            have hcn : Lt1.cond = none := by rw [R'.c.condT, hend.1.1]; rfl
+            simp only [hcn, Option.isSome_none, Bool.false_eq_true, if_false, R'.i.molsTop rfl]
+            rcases readGroups_okOrName (Lt1.itpLines ++ openOf Lt1.itp) Gt1 with ⟨g1, hg1⟩ | ⟨e, he, hne⟩
+            · rw [hg1]; exact Or.inl ⟨g1, rfl⟩
+            · rw [he]; exact Or.inr ⟨e, rfl, hne⟩
+          · rw [he]; exact Or.inr ⟨e, rfl, hne⟩
+        · cases hw
+
+/-- **Converse of the flattening theorem**: for a well-formed tree, if the flattened text is read then the tree
+is read — or the tree stops at the end of some file with a malformed moleculetype name line. -/
+theorem flatten_equiv_conv (fs : FS) (top : Path) (st : FlatSt) (gf : Glob)
+    (hwf : wellFormed fs top = true) (hfl : flatten fs top = .ok st) (hrs : readSingle st.out = .ok gf) :
+    OkOrName (readTop fs top) := by
+  unfold wellFormed at hwf
+  unfold flatten at hfl
+  unfold readTop
+  unfold wfFile at hwf
+  unfold flattenFile at hfl
+  unfold readFile
+  cases hget : fsGet fs top with
+  | none => simp [hget] at hwf
+  | some raws =>
+    simp only [hget] at hwf hfl ⊢
+    cases hwl : wfLines (fun p fr ph => wfFile fs fs.length false p fr ph) top.dropLast false true raws { phase2 := false } with
+    | none => simp [hwl] at hwf
+    | some w' =>
+      have hflat0 : flatRun ([] : List String) = .ok (({} : Glob), ({} : Loc)) := rfl
+      have hrs' : (match flatRun st.out with
+                   | Except.error e => Except.error e
+                   | Except.ok (g, l) => finalize g l) = Except.ok gf := hrs
+      cases hfr : flatRun st.out with
+      | error e => rw [hfr] at hrs'; cases hrs'
+      | ok rfin =>
+        obtain ⟨Gf', Lf'⟩ := rfin
+        rw [hfr] at hrs'
+        simp only at hrs'
+        have hl := conv_lines fs fs.length (conv_file fs fs.length) false true none [] [] top.dropLast raws
+          { phase2 := false } w' none {} st {} {} {} {} (Gf', Lf') hwl hfl hflat0 rel_init (fun _ => rfl) hfr
+        rcases hl with ⟨st1, hst1⟩ | ⟨e, he, hne⟩
+        · obtain ⟨Gt1, Lt1⟩ := st1
+          rw [hst1]
+          simp only
+          obtain ⟨_, _, Gf2, Lf2, hfl2, R⟩ := sim_lines fs fs.length (sim_file fs fs.length) false true none [] []
+            top.dropLast raws { phase2 := false } w' none {} st {} {} Gt1 Lt1 {} {} hwl hfl hst1 hflat0 rel_init (fun _ => rfl)
+          rw [hfr] at hfl2
+          injection hfl2 with hfl2; injection hfl2 with e1 e2; subst e1 e2
+          have I := R.i
+          -- the flat finalize succeeded
+          unfold finalize at hrs'
+          rw [finalize_groups Lf' I.itpF] at hrs'
+          cases hcf : Lf'.cond with
+          | some m => simp [hcf] at hrs'
+          | none =>
+            simp only [hcf, Option.isSome_none, Bool.false_eq_true, if_false] at hrs'
+            cases hrgf : readGroups Gf' (Lf'.itpLines ++ openOf Lf'.itp) with
+            | error e => simp [hrgf] at hrs'
+            | ok G1f =>
+              simp only [hrgf] at hrs'
+              have hct : Lt1.cond = none := by
+                have := R.c.condF
+                simp only [Bool.false_eq_true, if_false] at this
+                rw [← this, hcf]
+              unfold finalize
+              rw [finalize_groups Lt1 I.itpT]
+              simp only [hct, Option.isSome_none, Bool.false_eq_true, if_false]
+              rcases readGroups_okOrName (Lt1.itpLines ++ openOf Lt1.itp) Gt1 with ⟨G1t, hrg⟩ | ⟨e, he, hne⟩
+              · rw [hrg]
+                simp only
+                obtain ⟨hgr, _, _, _, _, _, hmol, hidx, _, hnames⟩ := readGroups_spec _ _ _ hrg
+                obtain ⟨hgrf, _, _, _, _, _, hmolf, hidxf, _, hnamesf⟩ := readGroups_spec _ _ _ hrgf
+                have NT := hnames R.g.names
+                have NF := hnamesf (by
+                  rw [R.g.gfEmpty.1, R.g.gfEmpty.2.1]
+                  exact ⟨(fun grp h => (by cases h)), (fun n => ⟨(fun h => (by cases h)), (fun h => (by obtain ⟨g, hg, _⟩ := h; cases hg))⟩)⟩)
+                have hperm : ((Gt1.groups ++ Lt1.itpLines ++ openOf Lt1.itp).map sealGroup).Perm
+                    ((Lf'.itpLines ++ openOf Lf'.itp).map sealGroup) := by
+                  simpa using I.perm
+                have hpermG : (G1t.groups.map sealGroup).Perm (G1f.groups.map sealGroup) := by
+                  rw [hgr, hgrf, R.g.gfEmpty.1, List.nil_append, ← List.append_assoc]
+                  exact hperm
+                have hbn : ∀ n, G1f.blockNames.contains n = G1t.blockNames.contains n := by
+                  intro n
+                  have h1 := NT.set n
+                  have h2 := NF.set n
+                  have h3 := names_perm _ _ hpermG n
+                  cases ha : G1t.blockNames.contains n with
+                  | true => exact h2.mpr (h3.mp (h1.mp ha))
+                  | false =>
+                    cases hb : G1f.blockNames.contains n with
+                    | false => rfl
+                    | true => rw [h1.mpr (h3.mpr (h2.mp hb))] at ha; cases ha
+                have hmolsEq : Lf'.mols = Lt1.mols := by rw [I.mols]; rfl
+                rw [hmolsEq] at hrs'
+                obtain ⟨gt, hexp, _⟩ := expandMols_congr Lt1.mols G1f G1t gf 0
+                  (by rw [hmol, hmolf, R.g.gtMols.1, R.g.gfEmpty.2.2.1])
+                  (by rw [hidx, hidxf, R.g.gtMols.2, R.g.gfEmpty.2.2.2]) hbn hrs'
+                exact Or.inl ⟨gt, hexp⟩
+              · rw [he]; exact Or.inr ⟨e, rfl, hne⟩
+        · rw [he]; exact Or.inr ⟨e, rfl, hne⟩
+
+/-- the tree reader does not stop on a malformed moleculetype name line (decidable: it evaluates the reader) -/
+def noMalformedMolNames (fs : FS) (top : Path) : Bool :=
+  match readTop fs top with
+  | .error e => !isNameErr e
+  | .ok _ => true
+
+theorem ObsEq.symm' {a b : Glob} (h : ObsEq a b) : ObsEq b a :=
+  ⟨⟨h.tables.defines.symm, h.tables.defaults.symm, h.tables.atomTypes.symm, h.tables.nonbond.symm, h.tables.types.symm⟩,
+   h.groups.symm, h.molecules.symm, h.molIdx.symm⟩
+
+theorem ObsEq.trans' {a b c : Glob} (h1 : ObsEq a b) (h2 : ObsEq b c) : ObsEq a c :=
+  ⟨⟨h1.tables.defines.trans h2.tables.defines, h1.tables.defaults.trans h2.tables.defaults,
+    h1.tables.atomTypes.trans h2.tables.atomTypes, h1.tables.nonbond.trans h2.tables.nonbond,
+    h1.tables.types.trans h2.tables.types⟩,
+   h1.groups.trans h2.groups, h1.molecules.trans h2.molecules, h1.molIdx.trans h2.molIdx⟩
+
 end PolyplyVerif.Proofs.C08Flatten
